@@ -40,6 +40,10 @@ RULES = [
     # what a `time at` wait waits for is the minute / hour set of its pattern: C10
     ('C05', [r'^Lex\._token_type']),
     ('C10', [r'^TimePattern\._init_minute_set', r'^TimePattern\._init_hour_set', r'^TimePattern\.match']),
+    # round 8: `return v` delivers v to the point of call also when the call is written directly as a register's value (C03);
+    # the named fields of printf are part of the OUT instruction's semantics (C01)
+    ('C03', [r'^Parser\._rvalue\[dest=']),
+    ('C01', [r'^VmIo\._printf']),
 ]
 for pid, pats in RULES:
     for c in spec.REGISTRY:
